@@ -25,6 +25,11 @@
     `fuelFor pm = (number of distinct nodes) + 1` suffices for every functional move graph.
   * `parallel_moves[temporary]` in `spanning_forest` panics on a missing key; the model has the explicit
     outcome `Res.missingKey` (proved unreachable).
+  * Placement of variables: position `i` of a context owns the position numbers `2i` (`Fst`) and `2i+1`
+    (`Snd`); the backend's `temporary_from_position` (a parameter `tfp : Nat → Option Nat` of
+    `variableTemporary`, `connections`, `codeWeakeningContraction`, `codeSubstitute`) turns a position
+    number into a temporary.  `genericTemporary = some` is the identity placement used by the generic
+    theorems and by the `subst` request; the real ones are in Backends.lean.
   * The generic part emits abstract instructions `AOp`; `save`/`restore` stand for
     `Backend::store_temporary` / `Backend::restore_temporary`, their `Bool` is `contains_spill_move`.
   * `transpose`: the Rust `BTreeMap<ContextBinding, Vec<ID>>` is iterated in the derived order of
@@ -47,9 +52,14 @@
              <rearrange> = comma separated `<newid>:<k>=<oldid>`, may be empty
     answer   refcount ops then move ops, `|`-separated; refcount ops are
                `comment #erase <id>` `erase <tFst>` | `comment #share <id>` `share <tFst> <n>`
-             or `panic` if a variable is not found in its context.
+             (the Rust comment text contains the printed variable `name_id`; the model has ids only),
+             or `panic` if a variable is not found in its context, or `outOfFuel` (e.g. a new variable
+             bound twice: the Rust code overflows its stack there).
+             Temporaries are abstract position numbers (`genericTemporary`).
     anything else -> `error`.
 -/
+
+set_option autoImplicit false
 
 namespace Scc.PMoves
 
@@ -315,27 +325,35 @@ def getPosition : Ctx → Nat → Option Nat
   | [], _ => none
   | b :: rest, id => if b.1 == id then some 0 else (getPosition rest id).map (· + 1)
 
-/-- utils.rs (all backends): fn variable_temporary, as an abstract position number
-    (`num` = 0 for `Fst`, 1 for `Snd`); `none` is the panic "Variable not found in context". -/
-def variableTemporary (num : Nat) (context : Ctx) (id : Nat) : Option Nat :=
-  (getPosition context id).map (fun p => 2 * p + num)
+/-- utils.rs (all backends): fn variable_temporary.  `num` = 0 for `Fst`, 1 for `Snd`.
+    `tfp` is the backend's `temporary_from_position` (position number ↦ temporary; `none` is the panic
+    "Out of temporaries"); the generic theorems use `genericTemporary = some`, i.e. the temporary of
+    `(position, num)` is the abstract number `2 * position + num`.
+    `none` is also the panic "Variable not found in context". -/
+def variableTemporary (tfp : Nat → Option Nat) (num : Nat) (context : Ctx) (id : Nat) : Option Nat :=
+  match getPosition context id with
+  | none => none
+  | some p => tfp (2 * p + num)
+
+/-- the identity placement: position `q` is temporary `q` -/
+def genericTemporary : Nat → Option Nat := some
 
 /-- substitution.rs: fn code_exchange::connections   (`none` = panic in `variable_temporary`) -/
-def connections (targetMap : List ((Nat × Chi) × List Nat)) (context newContext : Ctx) :
-    Option PMap :=
+def connections (tfp : Nat → Option Nat) (targetMap : List ((Nat × Chi) × List Nat))
+    (context newContext : Ctx) : Option PMap :=
   let rec go : List ((Nat × Chi) × List Nat) → PMap → Option PMap
     | [], acc => some acc
     | (binding, targets) :: rest, acc =>
       if binding.2 == Chi.ext then
-        match variableTemporary 1 context binding.1,
-              optMap (variableTemporary 1 newContext) targets with
+        match variableTemporary tfp 1 context binding.1,
+              optMap (variableTemporary tfp 1 newContext) targets with
         | some s, some ts => go rest (mapInsert s (setOfList ts) acc)
         | _, _ => none
       else
-        match variableTemporary 0 context binding.1,
-              optMap (variableTemporary 0 newContext) targets,
-              variableTemporary 1 context binding.1,
-              optMap (variableTemporary 1 newContext) targets with
+        match variableTemporary tfp 0 context binding.1,
+              optMap (variableTemporary tfp 0 newContext) targets,
+              variableTemporary tfp 1 context binding.1,
+              optMap (variableTemporary tfp 1 newContext) targets with
         | some s0, some ts0, some s1, some ts1 =>
           go rest (mapInsert s1 (setOfList ts1) (mapInsert s0 (setOfList ts0) acc))
         | _, _, _, _ => none
@@ -350,8 +368,9 @@ inductive ROp where
   deriving Repr, DecidableEq, Inhabited
 
 /-- substitution.rs: fn code_weakening_contraction::update_reference_count -/
-def updateReferenceCount (id : Nat) (context : Ctx) (newCount : Nat) : Option (List ROp) :=
-  match variableTemporary 0 context id with
+def updateReferenceCount (tfp : Nat → Option Nat) (id : Nat) (context : Ctx) (newCount : Nat) :
+    Option (List ROp) :=
+  match variableTemporary tfp 0 context id with
   | none => none
   | some temporary =>
     match newCount with
@@ -360,19 +379,19 @@ def updateReferenceCount (id : Nat) (context : Ctx) (newCount : Nat) : Option (L
     | n + 2 => some [.comment 1 id, .share temporary (n + 1)]
 
 /-- substitution.rs: fn code_weakening_contraction -/
-def codeWeakeningContraction (targetMap : List ((Nat × Chi) × List Nat)) (context : Ctx) :
-    Option (List ROp)
+def codeWeakeningContraction (tfp : Nat → Option Nat) (targetMap : List ((Nat × Chi) × List Nat))
+    (context : Ctx) : Option (List ROp)
   := match targetMap with
   | [] => some []
   | (binding, targets) :: rest =>
     if binding.2 != Chi.ext then
-      match updateReferenceCount binding.1 context targets.length with
+      match updateReferenceCount tfp binding.1 context targets.length with
       | none => none
       | some ops =>
-        match codeWeakeningContraction rest context with
+        match codeWeakeningContraction tfp rest context with
         | none => none
         | some more => some (ops ++ more)
-    else codeWeakeningContraction rest context
+    else codeWeakeningContraction tfp rest context
 
 /-- Outcome of a whole `Substitute` statement (without the continuation). -/
 inductive SubstRes where
@@ -383,14 +402,14 @@ inductive SubstRes where
   deriving Repr
 
 /-- statements/substitute.rs: fn code_statement for Substitute, up to `self.next` -/
-def codeSubstitute (rearrange : Rearrange) (context : Ctx) (containsSpillEdge : Root → Bool) :
-    SubstRes :=
+def codeSubstitute (tfp : Nat → Option Nat) (rearrange : Rearrange) (context : Ctx)
+    (containsSpillEdge : Root → Bool) : SubstRes :=
   let targetMap := transpose rearrange context
   let newCtx := newContext rearrange
-  match codeWeakeningContraction targetMap context with
+  match codeWeakeningContraction tfp targetMap context with
   | none => .panic
   | some rc =>
-    match connections targetMap context newCtx with
+    match connections tfp targetMap context newCtx with
     | none => .panic
     | some pm =>
       match parallelMoves pm containsSpillEdge with
@@ -471,19 +490,25 @@ def handlePm (arg : String) : String :=
   | none => "error"
   | some pm => renderRes (parallelMoves pm (fun _ => false))
 
-def handleSubst (arg : String) : String :=
+/-- `<ctx> -> <rearrange>` -/
+def parseSubst (arg : String) : Option (Ctx × Rearrange) :=
   match arg.splitOn "->" with
   | [c, r] =>
     match parseCommaList parseBinding c.trimAscii.toString,
           parseCommaList parseRearrangeEntry r.trimAscii.toString with
-    | some ctx, some re =>
-      match codeSubstitute re ctx (fun _ => false) with
-      | .ok rc mv => "|".intercalate (rc.map ROp.render ++ mv.map AOp.render)
-      | .panic => "panic"
-      | .outOfFuel => "outOfFuel"
-      | .missingKey => "missingKey"
-    | _, _ => "error"
-  | _ => "error"
+    | some ctx, some re => some (ctx, re)
+    | _, _ => none
+  | _ => none
+
+def handleSubst (arg : String) : String :=
+  match parseSubst arg with
+  | some (ctx, re) =>
+    match codeSubstitute genericTemporary re ctx (fun _ => false) with
+    | .ok rc mv => "|".intercalate (rc.map ROp.render ++ mv.map AOp.render)
+    | .panic => "panic"
+    | .outOfFuel => "outOfFuel"
+    | .missingKey => "missingKey"
+  | none => "error"
 
 /-- split a request into its command word and the rest -/
 def splitCommand (line : String) : String × String :=
